@@ -4,11 +4,12 @@
    Run in this directory:  coqc -Q ../coq ACV Extract.v   (writes model.ml / model.mli here). *)
 From Coq Require Extraction.
 From Coq Require Import ExtrOcamlBasic ExtrOcamlString.
-From ACV Require Import Model.Cli Model.Peg Model.PathGrammar Model.Graph Model.PathSem Model.Dnf Model.Rules Model.Report.
+From ACV Require Import Model.Cli Model.Peg Model.PathGrammar Model.Graph Model.PathSem Model.Dnf Model.Rules Model.Report Model.Pipeline.
 Extraction Language OCaml.
 Extraction "model.ml" Cli.run Cli.run_history Cli.last_ok Cli.spec_run Cli.spec_history
   PathGrammar.parse_path_with PathGrammar.default_fuel
   PathSem.model_strings PathSem.model_count PathSem.model_nodes PathSem.model_values PathSem.mixed_final
   PathSem.spec_strings PathSem.spec_count PathSem.spec_nodes
   Rules.model_reported Rules.lsat Rules.csat Rules.compl_ok Rules.disp_fuel Rules.wf_form Graph.targets
-  Report.build_report Report.spec_report Report.ids Report.wf_et Report.report_ids.
+  Report.build_report Report.spec_report Report.ids Report.wf_et Report.report_ids
+  Pipeline.run_entry Pipeline.as_coded Pipeline.spec_trace.
